@@ -224,6 +224,15 @@ func Groups(opts []cat.Opts, cb bool) []*cat.Catalog {
 			"d2": dec("a", []cat.Param{par("T2@g", "grp", 1), par("T3", "req", 1)}, cat.Result{Ks: []string{"T2@g"}, M: "grp", N: 2, O: 1}, cat.Result{Ks: []string{"T3"}, M: "one", O: 1}),
 		}
 	})
+	// an outer decorator of the group that also needs T1 - the output of c3, which consumes the
+	// group itself: while the outer decorator waits for T1, c3 is handed the group as the inner
+	// decorator (one scope further down) makes it, the outer one being skipped
+	decVariants = append(decVariants, func() map[string]*cat.Fn {
+		return map[string]*cat.Fn{
+			"d1": dec("r", []cat.Param{par("T2@g", "grp", 1), par("T1", "req", 1)}, cat.Result{Ks: []string{"T2@g"}, M: "grp", N: 1, O: 1}),
+			"d2": dec("a", []cat.Param{par("T2@g", "grp", 1)}, cat.Result{Ks: []string{"T2@g"}, M: "grp", N: 2, O: 1}),
+		}
+	})
 	for _, p1 := range places() {
 		for pi2, p2 := range places() {
 			for _, gm := range []string{"grp", "soft"} {
@@ -241,6 +250,9 @@ func Groups(opts []cat.Opts, cb bool) []*cat.Catalog {
 						c.Fns["i3"] = inv(par("T2@g", "soft", 1), par("T3", "req", 1))
 						for id, f := range mk() {
 							c.Fns[id] = f
+						}
+						if di == len(decVariants)-1 {
+							c.Fns["c3"].Exp = s3 != "r" // the outer decorator has to see c3
 						}
 						c.Note = fmt.Sprintf("groups c1=%v c2=%v gm=%s c3=%s dec=%d", p1, p2, gm, s3, di)
 						out = append(out, finish(c, opts, cb))
